@@ -111,6 +111,68 @@ func c12RespondOnce(c *Ctx) {
 		}
 		return false
 	}
+	// a call of a local helper counts as the number of responses the helper writes on every one of its paths
+	// (-1: the paths disagree, or the helper loops around a response)
+	helperCount := map[*ssa.Function]int{}
+	var respCount func(h *ssa.Function, depth int) int
+	respCount = func(h *ssa.Function, depth int) int {
+		if k, ok := helperCount[h]; ok {
+			return k
+		}
+		helperCount[h] = -1
+		if depth > 2 || len(h.Blocks) == 0 {
+			return -1
+		}
+		counts := map[int]bool{}
+		paths := 0
+		var walk func(b *ssa.BasicBlock, n int, seen map[*ssa.BasicBlock]bool)
+		walk = func(b *ssa.BasicBlock, n int, seen map[*ssa.BasicBlock]bool) {
+			if paths > 20000 {
+				counts[-1] = true
+				return
+			}
+			if seen[b] {
+				// a cycle: fine only if it contains no response (checked by comparing counts on re-entry)
+				if n != 0 {
+					counts[-1] = true
+				}
+				return
+			}
+			seen[b] = true
+			defer delete(seen, b)
+			for _, ins := range b.Instrs {
+				if isResponse(ins) {
+					n++
+				} else if cv, ok := ins.(*ssa.Call); ok {
+					if g := w.helperOf(cv); g != nil && w.transparent(g) {
+						k := respCount(g, depth+1)
+						if k < 0 {
+							counts[-1] = true
+							return
+						}
+						n += k
+					}
+				}
+				if _, ok := ins.(*ssa.Return); ok {
+					paths++
+					counts[n] = true
+					return
+				}
+			}
+			for _, s := range b.Succs {
+				walk(s, n, seen)
+			}
+		}
+		walk(h.Blocks[0], 0, map[*ssa.BasicBlock]bool{})
+		k := -1
+		if len(counts) == 1 {
+			for n := range counts {
+				k = n
+			}
+		}
+		helperCount[h] = k
+		return k
+	}
 	for _, call := range callsIn(fn) {
 		if _, isGo := call.(*ssa.Go); isGo {
 			c.Bad("R3.respond", "ServeAgent|no goroutine per request", w.Pos(call.Pos()), "requests are handled on other goroutines: replies can be written out of order")
@@ -143,6 +205,14 @@ func c12RespondOnce(c *Ctx) {
 		for _, ins := range b.Instrs {
 			if isResponse(ins) {
 				n++
+			} else if cv, ok := ins.(*ssa.Call); ok {
+				if g := w.helperOf(cv); g != nil && w.transparent(g) {
+					if k := respCount(g, 0); k < 0 {
+						bad["the helper "+shortFn(g)+" does not write the same number of responses on all its paths"] = true
+					} else {
+						n += k
+					}
+				}
 			}
 			if r, ok := ins.(*ssa.Return); ok {
 				nRet++
